@@ -8,9 +8,9 @@ from vlib.hanglatch import latched
 from vlib.ref import theory as T
 
 PROPERTY_ID = "C02"
-RULE = ("constructors: every name = letter x every '#'/'b' string up to length k in all orders (quick k=5, thorough k=8, "
+RULE = ("constructors: every name = letter x every '#'/'b' string up to length k in all orders (quick k=6, thorough k=9, "
         "enumerated) x the 17 named constructors, plus Hypothesis names with accidental strings of length 6..40; "
-        "measure/consonance: all ordered pairs of names (k<=3 quick, k<=6 thorough, enumerated) x measure x the four "
+        "measure/consonance: all ordered pairs of names (k<=4 quick, k<=6 thorough, enumerated) x measure x the four "
         "predicates x include_fourths in {True, False}. Non-trivial constructor case: input with >= 2 accidentals, or the "
         "target letter wraps past B, or the plainly counted accidental of the result exceeds +-6 so that the spelling "
         "must be folded to the other sign. Non-trivial pair: different letters and (an input with >= 2 accidentals or "
@@ -106,7 +106,7 @@ def _shard(seq, shard, nshards):
 
 
 def sub_constructors(ctx, shard, n):
-    k = 5 if ctx.quick else 8
+    k = 6 if ctx.quick else 9
     names = T.all_names(k)
     if shard == 0:
         ctx.exhaustive("constructors: names (letter x all accidental strings, all orders) x 17 constructors",
@@ -124,7 +124,7 @@ def sub_constructors_long(ctx, shard, n):
 
 
 def sub_pairs(ctx, shard, n):
-    k = 3 if ctx.quick else 6
+    k = 4 if ctx.quick else 6
     names = T.all_names(k)
     if shard == 0:
         ctx.exhaustive("measure/consonance: ordered pairs of names", "accidental length <= %d" % k, len(names) ** 2)
